@@ -2102,6 +2102,7 @@ class ExtID(BaseHashableModel):
             extid_version=d.get("extid_version", 0),
             payload_type=d.get("payload_type"),
             payload=d.get("payload"),
+            id=d.get("id") or b"",
         )
 
     def _compute_hash_from_attributes(self) -> bytes:
